@@ -5,7 +5,7 @@ from props import C19
 
 THEOREM_MODULES = ["Hcl.Theorems.C06", "Hcl.Tie.Run", "Hcl.Tie.PinsRun"]
 THEOREMS = {"Hcl.Tie.Run": ["Tie.Run.doneText", "Tie.Run.statuses", "Tie.Run.defaultTimeout"], "Hcl.Theorems.C06": ["C06_accepted", "runLoop_sound", "C06_terminates", "C06_stop", "C06_within_timeout", "C06_report", "stepCycle_cycle", "runN_cycle"],
-            "Hcl.Tie.PinsRun": ["Tie.PinsRun.pinRun"]}
+            "Hcl.Tie.PinsRun": ["Tie.PinsRun.pinRun", "Tie.PinsRun.pinSetTimeout", "Tie.PinsRun.pinStatusOrDefault", "Tie.PinsRun.pinHalted", "Tie.PinsRun.pinTimedOut"]}
 
 RULE = ("S-PROG status profile through RunningProgram::run(): Stat driven from a counter to produce every 3-bit value at "
         "cycle positions 0..6 (BUB or AOK before it), timeouts 0, 1 and 0..14 including the halting cycle; compared: number "
